@@ -25,7 +25,9 @@ fn state(tc: &mut TcCache, ids: &[String], contents: &[Vec<u8>], fails: &mut Vec
 
 fn run(ops: &[(char, usize, usize)], cap: u64) -> (String, String, Vec<(String, String)>, u64) {
     // content 3 is the empty archive body (its id is the digest of the empty string): an upload may carry no bytes at all
-    let contents: Vec<Vec<u8>> = (0..4u8).map(|i| if i == 3 { vec![] } else { vec![b'c', b'0' + i, b'\n'] }).collect();
+    let contents: Vec<Vec<u8>> = (0..4u8).map(|i| if i == 3 { vec![] } else if i == 2 { b"c2 larger than the small capacity\n".to_vec() } else { vec![b'c', b'0' + i, b'\n'] }).collect();
+    // content 2 does not fit a capacity of 7: its upload is refused for its size (`ix`), honest or not; `rO` reopens with a large capacity (the administrator raised the limit)
+    let mut cap = cap;
     let ids: Vec<String> = contents.iter().map(|c| sccache::util::Digest::reader_sync(&c[..]).unwrap()).collect();
     let tmp = tempfile::tempdir().unwrap();
     let mut tc = TcCache::new(tmp.path(), cap).unwrap();
@@ -35,14 +37,16 @@ fn run(ops: &[(char, usize, usize)], cap: u64) -> (String, String, Vec<(String, 
         let mut step = match k {
             'w' => { let data = contents[c].clone();
                 let r = tc.insert_with(&Toolchain { archive_id: ids[i].clone() }, move |mut f| f.write_all(&data));
-                if r.is_ok() != (i == c) { fails.push(("wrong_upload_result".into(), format!("upload id {} content {} returned {}", i, c, if r.is_ok() { "Ok" } else { "Err" }))); }
-                format!("iw{},{}{}", i, c, if r.is_ok() { "+" } else { "!" }) }
+                let oversize = contents[c].len() as u64 > cap;
+                if r.is_ok() != (i == c && !oversize) { fails.push(("wrong_upload_result".into(), format!("upload id {} content {} ({} bytes, capacity {}) returned {}", i, c, contents[c].len(), cap, if r.is_ok() { "Ok" } else { "Err" }))); }
+                if oversize { format!("ix{},{}", i, c) } else { format!("iw{},{}{}", i, c, if r.is_ok() { "+" } else { "!" }) } }
             'r' => { let _ = tc.remove(&Toolchain { archive_id: ids[i].clone() }); format!("rm{}", i) }
+            'O' => { drop(tc); cap = 1_000_000; tc = TcCache::new(tmp.path(), cap).unwrap(); "rO".into() }
             _ => { drop(tc); tc = TcCache::new(tmp.path(), cap).unwrap(); "ro".into() }
         };
         let st = state(&mut tc, &ids, &contents, &mut fails);
         // ids that were present and vanished without being the target of the operation were evicted
-        for j in 0..4 { if prev[j].is_some() && st[j].is_none() && !(j == i && k != 'o') { step = format!("ev{}/{}", j, step); evictions += 1; } }
+        for j in 0..4 { if prev[j].is_some() && st[j].is_none() && !(j == i && k != 'o' && k != 'O') { step = format!("ev{}/{}", j, step); evictions += 1; } }
         steps.push(step);
         states.push((0..4).map(|j| format!("{}:{}", j, st[j].map(|x| x.to_string()).unwrap_or("-".into()))).collect::<Vec<_>>().join(","));
         prev = st;
@@ -63,7 +67,7 @@ fn main() {
                 let len = 2 + rng.below(9);
                 let ops: Vec<(char, usize, usize)> = (0..len).map(|_| match rng.below(6) {
                     0..=3 => { let i = rng.below(4) as usize; let c = if rng.chance(1, 2) { i } else { rng.below(4) as usize }; ('w', i, c) }
-                    4 => ('r', rng.below(4) as usize, 0), _ => ('o', 0, 0) }).collect();
+                    4 => ('r', rng.below(4) as usize, 0), _ => (if rng.chance(1, 3) { 'O' } else { 'o' }, 0, 0) }).collect();
                 let (s, st, f, ev) = run(&ops, cap);
                 writeln!(tr, "{}\t{}", s, st).unwrap();
                 steps += len; evs += ev; let d = ops.iter().filter(|o| o.0 == 'w' && o.1 != o.2).count() as u64; dishonest += d;
@@ -79,8 +83,8 @@ fn main() {
             let l = s.lines().find(|l| !l.starts_with('#') && !l.trim().is_empty()).unwrap();
             let mut t = l.split_whitespace(); let cap: u64 = t.next().unwrap().parse().unwrap();
             let ops: Vec<(char, usize, usize)> = t.map(|o| { let o = o.rsplit('/').next().unwrap();
-                if let Some(r) = o.strip_prefix("iw") { let r = r.trim_end_matches(|c| c == '+' || c == '!'); let mut p = r.split(','); ('w', p.next().unwrap().parse().unwrap(), p.next().unwrap().parse().unwrap()) }
-                else if let Some(r) = o.strip_prefix("rm") { ('r', r.parse().unwrap(), 0) } else { ('o', 0, 0) } }).collect();
+                if let Some(r) = o.strip_prefix("iw").or(o.strip_prefix("ix")) { let r = r.trim_end_matches(|c| c == '+' || c == '!'); let mut p = r.split(','); ('w', p.next().unwrap().parse().unwrap(), p.next().unwrap().parse().unwrap()) }
+                else if let Some(r) = o.strip_prefix("rm") { ('r', r.parse().unwrap(), 0) } else if o == "rO" { ('O', 0, 0) } else { ('o', 0, 0) } }).collect();
             let (s, st, f, _) = run(&ops, cap);
             println!("{}\n{}", s, st); for (k, d) in &f { println!("MONITOR-FAIL {} {}", k, d); }
             std::process::exit(if f.is_empty() { 0 } else { 1 });
